@@ -4,7 +4,7 @@ import TornadoModel.C30.Spec
 import TornadoModel.C43.Lemmas
 namespace TornadoModel.C30
 open TornadoModel.C06 (Str)
-open TornadoModel.C43
+open TornadoModel.C43 hiding segs parseparam parseHeader
 
 /-! ### `str.replace` on two-character patterns -/
 
@@ -97,7 +97,7 @@ theorem segs_split (cs : Str) (bs : Bool) : segs (59 :: cs) false bs = [] :: seg
 
 theorem segs_step (c : Nat) (cs : Str) (odd bs : Bool) (hd : Str) (tl : List Str)
     (h : (decide (c = 59) && !odd) = false)
-    (hr : segs cs (if (decide (c = 34) && !bs) = true then !odd else odd) (decide (c = 92)) = hd :: tl) :
+    (hr : segs cs (if (decide (c = 34) && !bs) = true then !odd else odd) (decide (c = 92) && !bs) = hd :: tl) :
     segs (c :: cs) odd bs = (c :: hd) :: tl := by
   rw [segs]
   simp only [h, Bool.false_eq_true, if_false]
@@ -120,32 +120,15 @@ theorem segs_plain (w rest : Str) (odd bs : Bool) (hd : Str) (tl : List Str)
       | nil => simpa using hr
       | cons d ds => exact ih false hcs (by simp)
 
-/-- the state of the "previous character was a backslash" flag after `s` -/
-def endBs (s : Str) (bs : Bool) : Bool :=
-  match s.getLast? with
-  | some c => decide (c = 92)
-  | none => bs
-
-theorem endBs_cons (c : Nat) (cs : Str) (bs : Bool) : endBs (c :: cs) bs = endBs cs (decide (c = 92)) := by
-  cases cs with
-  | nil => simp [endBs]
-  | cons d ds =>
-    unfold endBs
-    rw [List.getLast?_cons_cons]
-    cases h : (d :: ds).getLast? with
-    | none => simp at h
-    | some x => rfl
-
-/-- inside a quoted string (`odd = true`) the escaped text is passed over without a split and without the parity
-    changing -/
-theorem segs_quoted (s rest : Str) (bs : Bool) (hd : Str) (tl : List Str)
-    (hr : segs rest true (endBs s bs) = hd :: tl) :
-    segs (emailQuote s ++ rest) true bs = (emailQuote s ++ hd) :: tl := by
-  induction s generalizing bs with
-  | nil => simpa [emailQuote, endBs] using hr
+/-- inside a quoted string (`odd = true`) the escaped text is passed over without a split, without the parity changing
+    and — every backslash the encoder writes being half of an escape pair — with the escape flag clear at the end,
+    whatever the text ends in -/
+theorem segs_quoted (s rest : Str) (hd : Str) (tl : List Str)
+    (hr : segs rest true false = hd :: tl) :
+    segs (emailQuote s ++ rest) true false = (emailQuote s ++ hd) :: tl := by
+  induction s with
+  | nil => simpa [emailQuote] using hr
   | cons c cs ih =>
-    rw [endBs_cons] at hr
-    have ih' := ih (decide (c = 92)) hr
     rw [emailQuote_cons]
     by_cases h92 : c = 92
     · subst h92
@@ -153,17 +136,17 @@ theorem segs_quoted (s rest : Str) (bs : Bool) (hd : Str) (tl : List Str)
       apply segs_step _ _ _ _ _ _ (by simp)
       simp only [show decide ((92 : Nat) = 34) = false by decide, Bool.false_and, Bool.false_eq_true, if_false]
       apply segs_step _ _ _ _ _ _ (by simp)
-      simpa using ih'
+      simpa using ih
     · by_cases h34 : c = 34
       · subst h34
         simp only [or_true, if_true, List.cons_append, List.nil_append]
         apply segs_step _ _ _ _ _ _ (by simp)
         simp only [show decide ((92 : Nat) = 34) = false by decide, Bool.false_and, Bool.false_eq_true, if_false]
         apply segs_step _ _ _ _ _ _ (by simp)
-        simpa using ih'
+        simpa using ih
       · simp only [h92, h34, or_self, if_false, List.cons_append, List.nil_append]
         apply segs_step _ _ _ _ _ _ (by simp)
-        simpa [h34] using ih'
+        simpa [h34, h92] using ih
 
 /-- an unescaped double quote toggles the parity -/
 theorem segs_quote (cs : Str) (odd : Bool) (hd : Str) (tl : List Str) (hr : segs cs (!odd) false = hd :: tl) :
@@ -174,24 +157,17 @@ theorem segs_quote (cs : Str) (odd : Bool) (hd : Str) (tl : List Str) (hr : segs
 theorem segs_last_quote (odd bs : Bool) : segs [34] odd bs = [[34]] := by
   simp [segs]
 
-/-- `"…"` with the escaped text of `s`, opened outside a quoted string: passes to `rest` outside a quoted string,
-    provided `s` does not end in a backslash -/
-theorem segs_quotedString (s rest : Str) (hd : Str) (tl : List Str) (hs : s.getLast? ≠ some 92)
+/-- `"…"` with the escaped text of `s`, opened outside a quoted string: passes to `rest` outside a quoted string —
+    also when `s` ends in a backslash (the closing quote then follows the escaped backslash `\\`; before the fix
+    d01e7a8 it was taken for an escaped quote) -/
+theorem segs_quotedString (s rest : Str) (hd : Str) (tl : List Str)
     (hr : segs rest false false = hd :: tl) :
     segs (34 :: (emailQuote s ++ 34 :: rest)) false false = (34 :: (emailQuote s ++ 34 :: hd)) :: tl := by
   apply segs_quote
   apply segs_quoted
-  have he : endBs s false = false := by
-    unfold endBs
-    cases hl : s.getLast? with
-    | none => rfl
-    | some c =>
-      have : c ≠ 92 := fun e => hs (by rw [hl, e])
-      simp [this]
-  rw [he]
   exact segs_quote rest true hd tl (by simpa using hr)
 
-/-- the last parameter: nothing follows, so even a trailing backslash is harmless -/
+/-- the last parameter: nothing follows -/
 theorem segs_quotedString_last (s : Str) :
     segs (34 :: (emailQuote s ++ [34])) false false = [34 :: (emailQuote s ++ [34])] := by
   apply segs_quote
@@ -246,8 +222,7 @@ def fnParams (filename : Option Str) : List (Str × Str) :=
 theorem quoted_eq (s : Str) : Spec.quoted s = 34 :: (emailQuote s ++ [34]) := by
   simp [Spec.quoted]
 
-theorem parseparam_dispValue (name : Str) (filename : Option Str)
-    (hn : filename.isSome → name.getLast? ≠ some 92) :
+theorem parseparam_dispValue (name : Str) (filename : Option Str) :
     parseparam (dispValue name filename) =
       ofAscii "form-data" :: paramName name :: fnSegs filename := by
   have hsplit : ofAscii "form-data; name=" = ofAscii "form-data" ++ 59 :: ofAscii " name=" := by decide
@@ -304,7 +279,6 @@ theorem parseparam_dispValue (name : Str) (filename : Option Str)
       simpa using this
     simp only [hsegs, List.map_cons, List.map_nil, hs1, hname, fnSegs]
   | some fn =>
-    have hnl : name.getLast? ≠ some 92 := hn rfl
     have hsegs : segs (ofAscii "form-data; name=" ++ Spec.quoted name ++ (ofAscii "; filename=" ++ Spec.quoted fn)) false false =
         [ofAscii "form-data", ofAscii " name=" ++ Spec.quoted name, ofAscii " filename=" ++ Spec.quoted fn] := by
       rw [hsplit, hsplit2, quoted_eq, quoted_eq]
@@ -318,7 +292,7 @@ theorem parseparam_dispValue (name : Str) (filename : Option Str)
           [] :: [ofAscii " name=" ++ 34 :: (emailQuote name ++ 34 :: []), ofAscii " filename=" ++ 34 :: (emailQuote fn ++ [34])] := by
         rw [List.cons_append, segs_split]
         congr 1
-        exact segs_plain _ _ _ _ _ _ hp2 (by decide) (segs_quotedString name _ _ _ hnl h3)
+        exact segs_plain _ _ _ _ _ _ hp2 (by decide) (segs_quotedString name _ _ _ h3)
       have := segs_plain (ofAscii "form-data") _ false false _ _ hp1 (by decide) h2
       simpa using this
     simp only [hsegs, List.map_cons, List.map_nil, hs1, hname, hfile, fnSegs]
@@ -336,8 +310,7 @@ theorem strip_quoted (s : Str) : strip (Spec.quoted s) = Spec.quoted s := by
     subst this; decide
 
 /-- `_parse_header` recovers the name and filename the encoder wrote -/
-theorem parseHeader_dispValue (name : Str) (filename : Option Str)
-    (hn : filename.isSome → name.getLast? ≠ some 92) :
+theorem parseHeader_dispValue (name : Str) (filename : Option Str) :
     parseHeader (dispValue name filename) =
       .ok (ofAscii "form-data", (ofAscii "name", name) :: fnParams filename) := by
   have hsf1 : splitFirst 61 (paramName name) = some (ofAscii "name", Spec.quoted name) := by
@@ -361,7 +334,7 @@ theorem parseHeader_dispValue (name : Str) (filename : Option Str)
     have := emailUnquote_quoted s
     simpa using this
   unfold parseHeader
-  rw [parseparam_dispValue name filename hn]
+  rw [parseparam_dispValue name filename]
   cases filename with
   | none =>
     simp only [fnSegs, fnParams, rawParams, List.filterMap_cons, List.filterMap_nil, hsf1, Option.map_some, hl1, strip_quoted,
